@@ -1607,6 +1607,13 @@ class Interp:
         if g.ifs:
             # filter: the result is a sub-sequence of unknown length 0..n; `selected(j)` is the index of its j-th element
             # and every selected element satisfies the filter (assumed when the element is read)
+            if kind == "dict":
+                # {k: v for ... if c}: the map built from the filtered (key, value) pairs
+                pairs = self._symseq_comp(ast.ListComp(elt=ast.Tuple(elts=[n.key, n.value], ctx=ast.Load()), generators=n.generators), fr, "list")
+                if pairs is None:
+                    return None
+                self._fresh_n += 1
+                return SymMap(self, f"map!{self._fresh_n}", pairs.length, lambda i: pairs.elem(i)[0], lambda i: pairs.elem(i)[1])
             if kind != "list":
                 return None
             self._fresh_n += 1
